@@ -7,6 +7,7 @@ package dicescript
 import (
 	"bytes"
 	"encoding/json"
+	"errors"
 	"sync"
 	"sync/atomic"
 	"unsafe"
@@ -459,6 +460,12 @@ func (m *ValueMap) UnmarshalJSON(input []byte) error {
 	var dict map[string]*VMValue
 	if err := json.Unmarshal(input, &dict); err != nil {
 		return err
+	}
+
+	for k, v := range dict {
+		if v == nil {
+			return errors.New("值错误: 变量 " + k + " 不能为null")
+		}
 	}
 
 	m.Clear()
